@@ -317,6 +317,13 @@ func pkgOfRole(name string) string {
 	return s
 }
 
+// transparentHelper lists functions of the current tree that are deliberately *not* roles: they are thin wrappers
+// around a library call that many rules anchor on, and are replaced by their body wherever they are called (§6.8),
+// so that those rules keep seeing the library call — together with the guard the wrapper puts in front of it.
+var transparentHelper = map[string]bool{
+	"helpers.Sprint": true, // fmt.Sprint behind the cycle guard (repair 66)
+}
+
 // genRoles prints roles_table.go for the given names from the loaded tree.
 func (p *Prog) genRoles(names []string) string {
 	var b strings.Builder
@@ -324,7 +331,7 @@ func (p *Prog) genRoles(names []string) string {
 	sort.Strings(names)
 	for _, n := range names {
 		fn := p.byName[n]
-		if fn == nil || !inModule(fn) || fn.Parent() != nil {
+		if fn == nil || !inModule(fn) || fn.Parent() != nil || transparentHelper[n] {
 			continue
 		}
 		if token.IsExported(fn.Name()) && fn.Signature.Recv() == nil {
